@@ -120,19 +120,22 @@ Section Relabel.
 
   Definition cond_lt (seqlen : Z) (left : Z) (_ _ : list nat) : bool := left <? seqlen.
 
-  (** [None]: [remove_position[-1]] of an empty edge table (IndexError), or out of fuel *)
-  Definition relabel_mutations (num_mutations : nat) (insq remq : list nat) : option (list Z) :=
+  (** [sequence_length = remove_position[-1] if num_edges > 0 else 0.0] (since repair 3af34f9; the
+      empty case used to be an IndexError).  [None]: out of fuel (never on valid tables). *)
+  Definition relabel_seqlen (remq : list nat) : Z :=
     match rev remq with
-    | [] => None
-    | last :: _ =>
-        let seqlen := eright (edge_at es last) in
-        match loop rl_state (fun i => eleft (edge_at es i)) (fun i => eright (edge_at es i)) seqlen
-                   rl_rmv rl_ins rl_after (fun _ => false) (cond_lt seqlen)
-                   (sweep_fuel insq remq) 0 insq remq
-                   (mkRL (fun u => Z.of_nat u) (fun _ => -1) (seq 0 num_mutations)) with
-        | None => None
-        | Some s => Some (to_list num_mutations (rl_out (rl_finish s)))
-        end
+    | [] => 0
+    | last :: _ => eright (edge_at es last)
+    end.
+
+  Definition relabel_mutations (num_mutations : nat) (insq remq : list nat) : option (list Z) :=
+    let seqlen := relabel_seqlen remq in
+    match loop rl_state (fun i => eleft (edge_at es i)) (fun i => eright (edge_at es i)) seqlen
+               rl_rmv rl_ins rl_after (fun _ => false) (cond_lt seqlen)
+               (sweep_fuel insq remq) 0 insq remq
+               (mkRL (fun u => Z.of_nat u) (fun _ => -1) (seq 0 num_mutations)) with
+    | None => None
+    | Some s => Some (to_list num_mutations (rl_out (rl_finish s)))
     end.
 End Relabel.
 
